@@ -181,7 +181,8 @@ func (fst *FSTree) Query(q *query.Query, local, internal bool) (*iterator.Iterat
 	fileInfo, err := os.Stat(walkPrefix)
 	var walkRoot string
 	switch {
-	case err == nil && fileInfo.IsDir():
+	case err == nil && fileInfo.IsDir() &&
+		(q.DatabaseKeyPrefix() == "" || strings.HasSuffix(q.DatabaseKeyPrefix(), "/")):
 		walkRoot = walkPrefix
 	case err == nil:
 		walkRoot = filepath.Dir(walkPrefix)
@@ -217,6 +218,17 @@ func (fst *FSTree) queryExecutor(walkRoot string, queryIter *iterator.Iterator, 
 			return nil
 		}
 
+		// get key
+		key, err := filepath.Rel(fst.basePath, path)
+		if err != nil {
+			return fmt.Errorf("fstree: failed to extract key from filepath %s: %w", path, err)
+		}
+		// The walk covers the whole directory of the prefix: only records
+		// whose key starts with the prefix are part of the result.
+		if !q.MatchesKey(filepath.ToSlash(key)) {
+			return nil
+		}
+
 		// read file
 		data, err := os.ReadFile(path)
 		if err != nil {
@@ -227,10 +239,6 @@ func (fst *FSTree) queryExecutor(walkRoot string, queryIter *iterator.Iterator, 
 		}
 
 		// parse
-		key, err := filepath.Rel(fst.basePath, path)
-		if err != nil {
-			return fmt.Errorf("fstree: failed to extract key from filepath %s: %w", path, err)
-		}
 		r, err := record.NewRawWrapper(fst.name, key, data)
 		if err != nil {
 			return fmt.Errorf("fstree: failed to load file %s: %w", path, err)
